@@ -1,15 +1,81 @@
-import Mathlib.Data.List.Nodup
-import Mathlib.Data.List.Perm.Subperm
-#check @List.Nodup.subperm
-#check @List.Subperm.length_le
-#check @List.nodup_range
-#check @List.Nodup.map
-#check @List.Nodup.filter
-#check @List.length_flatMap
-#check @List.find?_eq_none
-#check @List.find?_some
-#check @List.mem_of_find?_eq_some
-#check @List.Pairwise.imp
-#check @List.length_filter_le
-#check @List.filter_length_eq_length
-#check @List.length_filter_eq_length_iff
+import RigModel.Props.C09
+import Mathlib.Tactic.IntervalCases
+namespace Rig.C09
+open Rig.Gen.Load
+
+/-! ### instances: non-vacuity of the hypotheses, and the counterexamples without `PreClean` -/
+
+/-- one chip (0, 0); `allMiss` decides whether the chip misses every fill -/
+def mcE (allMiss : Bool) : MCfg :=
+  { chips := [(0, 0)], missed := fun _ _ _ => allMiss, sdramSys := 1610612736, vcpuBase := 3842011136 }
+/-- region word 0x00030001 = level 3, base (0, 0), block 0: chip (0, 0) only; mask 2 = core 1 -/
+def ctlE (useCount wait : Bool) : Ctl :=
+  { buf := 4, compress := fun t => if wantsT t 0 0 1 then [(196609, 2)] else [], appId := 30, nTries := 2,
+    wait := wait, useCount := useCount }
+def rxE : Rx := { idx := 0, pid := 0, nBlocks := 0, got := 0, next := 0, regs := [], data := [], ok := false }
+/-- one binary of 8 bytes (two blocks) for core 1 of chip (0, 0) -/
+def appsE : List App := [{ name := 0, image := [1, 2, 3, 4, 5, 6, 7, 8], targets := [(0, 0, [1])] }]
+/-- all cores idle except core `p0` of chip (0, 0), which waits under app id `app0` with another binary -/
+def initE (p0 app0 : Nat) : Sim :=
+  { m := { core := fun x y p => if x = 0 ∧ y = 0 ∧ p = p0 then ⟨stWait, app0, [9]⟩ else ⟨stIdle, 0, []⟩,
+           rx := rxE, fills := 0 }, nn := 126, trace := [] }
+
+theorem validE (allMiss useCount wait : Bool) : Valid (mcE allMiss) (ctlE useCount wait) appsE where
+  hb := by show 4 ≤ 4; decide
+  hb4 := by show 4 ∣ 4; decide
+  hbmax := by show 4 ≤ 1024; decide
+  happ := by show 30 < 256; decide
+  hv := by show 3842011136 < 4294967296; decide
+  himg := by
+    intro a ha
+    simp only [appsE, List.mem_singleton] at ha
+    subst ha
+    show 4 ∣ 8 ∧ 8 ≤ 255 * 4
+    decide
+  hchips := by show [((0 : Nat), (0 : Nat))].Nodup; decide
+  hin := by
+    intro a ha x y p hw
+    simp only [appsE, List.mem_singleton] at ha
+    subst ha
+    simp only [wants, List.any_cons, List.any_nil, Bool.or_false, Bool.and_eq_true, beq_iff_eq,
+      List.contains_iff_mem, List.mem_singleton] at hw
+    obtain ⟨⟨rfl, rfl⟩, rfl⟩ := hw
+    exact ⟨by simp [mcE], by decide⟩
+  hdisj := by
+    intro a ha b hb _ _ _ _ _
+    simp only [appsE, List.mem_singleton] at ha hb
+    rw [ha, hb]
+  hcomp := by
+    intro t ⟨a, ha, hsub⟩
+    simp only [appsE, List.mem_singleton] at ha
+    subst ha
+    have honly : ∀ p, p ≠ 1 → wantsT t 0 0 p = false := by
+      intro p hp
+      cases h : wantsT t 0 0 p with
+      | false => rfl
+      | true =>
+        have := hsub 0 0 p h
+        simp only [wants, List.any_cons, List.any_nil, Bool.or_false, Bool.and_eq_true, beq_iff_eq,
+          List.contains_iff_mem, List.mem_singleton] at this
+        exact absurd this.2 hp
+    constructor
+    · intro rm hrm
+      simp only [ctlE] at hrm
+      split at hrm
+      · simp only [List.mem_singleton] at hrm; subst hrm; decide
+      · simp at hrm
+    · intro x y p hc hp
+      simp only [mcE, List.mem_singleton, Prod.mk.injEq] at hc
+      obtain ⟨rfl, rfl⟩ := hc
+      simp only [ctlE]
+      by_cases hp1 : p = 1
+      · subst hp1
+        cases h : wantsT t 0 0 1 with
+        | false => simp [selectsCore]
+        | true => simp only [if_true]; decide
+      · rw [honly p hp1]
+        split
+        · interval_cases p <;> first | exact absurd rfl hp1 | decide
+        · simp [selectsCore]
+
+end Rig.C09
